@@ -254,6 +254,41 @@ def kraus_cases(L, seed, n):
     return {"cases": cases, "violations": viol, "tie": tie, "histogram": hist}
 
 
+def num_quanta_cases(L, seed, n):
+    """`num_quanta_vector` / `num_quanta_matrix` against the model (last entry / row / column that is not
+    exactly zero) on crafted arrays: leading / trailing zeros, tiny values, negative zero, purely imaginary
+    entries, a single non-zero entry"""
+    import photon_weave._math.ops as O
+    import jax.numpy as jnp
+    rng = random.Random(zlib.crc32(b"C10-decide") + int(seed))
+    viol, tie, hist, cases = [], [], {}, 0
+    specials = [0.0, -0.0, 1e-300, 1e-30, 1e-12, 1.0, -1.0, 1e-5j, 1j, 0.3 - 0.4j]
+    for k in range(n):
+        d = rng.choice([1, 2, 3, 5, 8])
+        mat = k % 2 == 1
+        size = d * d if mat else d
+        vals = [rng.choice(specials) if rng.random() < 0.55 else 0.0 for _ in range(size)]
+        if not any(v != 0 for v in vals):
+            vals[rng.randrange(size)] = rng.choice([1.0, 1e-300, 1j])
+        a = np.array(vals, dtype=complex).reshape((d, d) if mat else (d, 1))
+        r = L.call(op="num_quanta", data=carr(a), n=d, matrix=mat)["q"]
+        cases += 1
+        kind = "matrix" if mat else "vector"
+        hist[kind] = hist.get(kind, 0) + 1
+        payload = {"kind": kind, "re": np.real(a).tolist(), "im": np.imag(a).tolist(), "model": r}
+        try:
+            got = int(O.num_quanta_matrix(jnp.array(a)) if mat else O.num_quanta_vector(jnp.array(a)))
+        except Exception as ex:
+            viol.append((f"num_quanta_{kind} raised {type(ex).__name__}: {str(ex)[:100]}", payload))
+            continue
+        if r is None or got != int(r):
+            tie.append(f"num_quanta_{kind}: implementation {got}, model {r}")
+            top = max(i for i in range(d) if np.any(a[i] != 0) or (mat and np.any(a[:, i] != 0)))
+            if got != top:
+                viol.append((f"num_quanta_{kind} returns {got} but the highest index holding a non-zero entry is {top}", payload))
+    return {"cases": cases, "violations": viol, "tie": tie, "histogram": hist}
+
+
 def run(prop, seed, thorough, lean=None):
     L = lean or Lean()
     try:
@@ -261,6 +296,8 @@ def run(prop, seed, thorough, lean=None):
             return contraction_cases(L, seed, 1500 if thorough else 150)
         if prop == "C17":
             return kraus_cases(L, seed, 3000 if thorough else 300)
+        if prop == "C10":
+            return num_quanta_cases(L, seed, 3000 if thorough else 300)
     finally:
         if lean is None:
             L.close()
